@@ -146,3 +146,19 @@ def near_text(rng, n):
         pool = NEAR_ALNUM_EXTRA if base == 'alphanumeric' else ALNUM[10:] + ',.- '
         chars[rng.randrange(len(chars))] = rng.choice(pool)
     return ''.join(chars)
+
+
+def runs_text(rng, n):
+    """Text made of runs of different density classes (digits / alphanumeric / lower-case text / Latin-1), 1..30
+    characters each: the mode of a part of the message differs from the mode of the whole."""
+    out = []
+    total = 0
+    while total < n:
+        k = min(n - total, rng.randint(1, 30))
+        cls = rng.choice(('numeric', 'numeric', 'alphanumeric', 'ascii', 'latin1'))
+        if cls in ('numeric', 'alphanumeric'):
+            out.append(text(rng, cls, k))
+        else:
+            out.append(text(rng, 'byte', k, cls))
+        total += k
+    return ''.join(out)
